@@ -29,6 +29,8 @@ func checkC05(c *Ctx, r *Report) {
 	checkQRInterleave(c, r)
 	checkQRZigZag(c, r)
 	checkDMDeinterleave(c, r)
+	checkDecodePipelines(c, r)
+	checkRSEncodeQR(c, r) // the symbols whose damage is corrected are written with this parity
 	r.Note("Reed-Solomon correction itself is decided under C04 on complete small domains (S-RSWHOLE); not decided: correction for the real block sizes (the same text, larger k and r), detection and sampling of damaged images")
 }
 
@@ -696,5 +698,267 @@ func checkRSWord(c *Ctx, r *Report) {
 			}
 		}
 		reportFold(r, c, "S-RSWORD", key, fd.Pos(), bad)
+	}
+}
+
+// S-PIPELINE: from the codewords read off the symbol to the byte stream handed to the bit-stream parser
+func checkDecodePipelines(c *Ctx, r *Report) {
+	r.Rule("S-PIPELINE", "the decoders' own glue, folded from source with the readers, Reed-Solomon and the bit-stream parser replaced by recorders: the Data Matrix Decoder.Decode (all 30 sizes) and the QR Decoder.decode (10 versions x 4 levels; all 160 in the thorough tier), given the interleaved stream of tagged codewords of the symbol, hand every block with its own data-codeword count to correctErrors and then hand the bit-stream parser exactly the data codewords of the message in their original order - nothing missing, nothing appended", 70)
+	type stop struct{}
+	// ---------------- Data Matrix
+	if fd, p := c.funcDeclOf("datamatrix/decoder", "Decoder.Decode"); fd == nil {
+		r.AnchorLost("S-PIPELINE", "datamatrix/decoder.Decoder.Decode", "method not found")
+	} else {
+		nv, _ := c.lookupObj("datamatrix/decoder", "NewVersion").(*types.Func)
+		nfd := c.funcDecl[nv]
+		init, ip := c.varInit("datamatrix/decoder", "versions")
+		var tv *Val
+		if init != nil {
+			tv = c.eval(ip, init)
+		}
+		for _, ref := range refDM {
+			key := fmt.Sprintf("datamatrix/decoder.Decoder.Decode %dx%d", ref.rows, ref.cols)
+			r.Analysed(key)
+			pos := c.pos(fd.Pos())
+			var ver *Val
+			if tv != nil && tv.K == VList && nfd != nil {
+				for _, e := range tv.L {
+					if e.K == VCall && e.Fn == nv && len(e.L) == 6 && e.L[1].isInt() && e.L[2].isInt() && int(e.L[1].I) == ref.rows && int(e.L[2].I) == ref.cols {
+						if res, err := c.rpfCall(nfd, c.declPkg[nfd], e.L, nil); err == nil && len(res) == 1 && res[0].K == VStruct {
+							ver = res[0]
+						}
+					}
+				}
+			}
+			if ver == nil {
+				r.Undecided("S-PIPELINE", key, pos, "no foldable versions entry for this size")
+				continue
+			}
+			B, total := ref.blocks, ref.data+ref.ec
+			raw := &Val{K: VList}
+			for q := 0; q < total; q++ {
+				raw.L = append(raw.L, vint(int64(q)))
+			}
+			var got []int64
+			var blocksSeen []int64
+			captured := false
+			h := &rpf{unroll: 100000, maxSteps: 5000000}
+			h.callHook = func(rr *rpf, call *ast.CallExpr, callee types.Object) (*Val, bool) {
+				fn, ok := callee.(*types.Func)
+				if !ok {
+					return nil, false
+				}
+				switch fn.Name() {
+				case "GetVersion":
+					return ver, true
+				case "correctErrors":
+					n := rr.expr(call.Args[1])
+					if n.K != VInt {
+						rpfFail("correctErrors with a non-constant data-codeword count")
+					}
+					blocksSeen = append(blocksSeen, n.I)
+					return &Val{K: VNil}, true
+				}
+				return errCtorHook(rr, call, callee)
+			}
+			h.multiHook = func(call *ast.CallExpr, callee types.Object) ([]*Val, bool) {
+				fn, ok := callee.(*types.Func)
+				if !ok {
+					return nil, false
+				}
+				switch fn.Name() {
+				case "NewBitMatrixParser":
+					return []*Val{{K: VStruct, Ptr: true, Fields: map[string]*Val{}}, {K: VNil}}, true
+				case "readCodewords":
+					return []*Val{raw, {K: VNil}}, true
+				case "DecodedBitStreamParser_decode":
+					v := rpfCurrent.expr(call.Args[0])
+					got, captured = nil, true
+					if xs, ok := listInts(v); ok {
+						got = xs
+					}
+					panic(stop{})
+				}
+				return nil, false
+			}
+			var err error
+			func() {
+				defer func() {
+					if x := recover(); x != nil {
+						if _, ok := x.(stop); ok {
+							return
+						}
+						panic(x)
+					}
+				}()
+				_, err = c.rpfCall(fd, p, []*Val{{K: VNil}}, h)
+			}()
+			if err != nil {
+				r.Undecided("S-PIPELINE", key, pos, err.Error())
+				continue
+			}
+			bad := ""
+			if !captured {
+				bad = "the bit-stream parser is never reached"
+			}
+			if bad == "" && len(got) != ref.data {
+				bad = fmt.Sprintf("the bit-stream parser is handed %d bytes, the symbol has %d data codewords", len(got), ref.data)
+			}
+			for i := 0; i < len(got) && bad == ""; i++ {
+				if got[i] != int64(i) {
+					bad = fmt.Sprintf("byte %d handed to the bit-stream parser is stream codeword %d, the message's data codeword %d is stream codeword %d", i, got[i], i, i)
+				}
+			}
+			if bad == "" && len(blocksSeen) != B {
+				bad = fmt.Sprintf("correctErrors is called for %d blocks, the symbol has %d", len(blocksSeen), B)
+			}
+			for b := 0; b < len(blocksSeen) && bad == ""; b++ {
+				want := int64(ref.data / B)
+				if b < ref.data%B {
+					want++
+				}
+				if blocksSeen[b] != want {
+					bad = fmt.Sprintf("block %d is corrected with %d data codewords, it has %d", b, blocksSeen[b], want)
+				}
+			}
+			r.Check(bad == "", "S-PIPELINE", key, pos, bad)
+		}
+	}
+	// ---------------- QR
+	fd, p := c.funcDeclOf("qrcode/decoder", "Decoder.decode")
+	if fd == nil {
+		r.AnchorLost("S-PIPELINE", "qrcode/decoder.Decoder.decode", "method not found")
+		return
+	}
+	versions := []int{1, 2, 5, 7, 10, 15, 20, 27, 32, 40}
+	if c.Tier == "thorough" {
+		versions = nil
+		for v := 1; v <= 40; v++ {
+			versions = append(versions, v)
+		}
+	}
+	const ecTag = 1000000
+	for _, v := range versions {
+		for lv := 0; lv < 4; lv++ {
+			key := fmt.Sprintf("qrcode/decoder.Decoder.decode v%d-%s", v, refQRLevelNames[lv])
+			r.Analysed(key)
+			pos := c.pos(fd.Pos())
+			ec, groups := refQRBlocks(v, lv)
+			total := refQRTotalCodewords(v)
+			var dataLen []int
+			for _, g := range groups {
+				for i := 0; i < g[0]; i++ {
+					dataLen = append(dataLen, g[1])
+				}
+			}
+			nb := len(dataLen)
+			numData := total - ec*nb
+			start := make([]int, nb)
+			off, maxD := 0, 0
+			for b, n := range dataLen {
+				start[b] = off
+				off += n
+				if n > maxD {
+					maxD = n
+				}
+			}
+			raw := &Val{K: VList}
+			for i := 0; i < maxD; i++ {
+				for b := 0; b < nb; b++ {
+					if i < dataLen[b] {
+						raw.L = append(raw.L, vint(int64(start[b]+i)))
+					}
+				}
+			}
+			for i := 0; i < ec; i++ {
+				for b := 0; b < nb; b++ {
+					raw.L = append(raw.L, vint(int64(ecTag+b*1000+i)))
+				}
+			}
+			ecb := &Val{K: VList}
+			for _, g := range groups {
+				ecb.L = append(ecb.L, &Val{K: VStruct, Fields: map[string]*Val{"count": vint(int64(g[0])), "dataCodewords": vint(int64(g[1]))}})
+			}
+			ecBlocks := &Val{K: VStruct, Ptr: true, Fields: map[string]*Val{"ecCodewordsPerBlock": vint(int64(ec)), "ecBlocks": ecb}}
+			var got, blocksSeen []int64
+			captured := false
+			h := &rpf{unroll: 100000, maxSteps: 5000000}
+			h.callHook = func(rr *rpf, call *ast.CallExpr, callee types.Object) (*Val, bool) {
+				fn, ok := callee.(*types.Func)
+				if !ok {
+					return nil, false
+				}
+				switch fn.Name() {
+				case "GetTotalCodewords":
+					return vint(int64(total)), true
+				case "GetECBlocksForLevel":
+					return ecBlocks, true
+				case "GetErrorCorrectionLevel":
+					return vint(int64(lv)), true
+				case "correctErrors":
+					n := rr.expr(call.Args[1])
+					if n.K != VInt {
+						rpfFail("correctErrors with a non-constant data-codeword count")
+					}
+					blocksSeen = append(blocksSeen, n.I)
+					return &Val{K: VNil}, true
+				}
+				return errCtorHook(rr, call, callee)
+			}
+			h.multiHook = func(call *ast.CallExpr, callee types.Object) ([]*Val, bool) {
+				fn, ok := callee.(*types.Func)
+				if !ok {
+					return nil, false
+				}
+				switch fn.Name() {
+				case "ReadVersion", "ReadFormatInformation":
+					return []*Val{{K: VStruct, Ptr: true, Fields: map[string]*Val{}}, {K: VNil}}, true
+				case "ReadCodewords":
+					return []*Val{raw, {K: VNil}}, true
+				case "DecodedBitStreamParser_Decode":
+					captured = true
+					got, _ = listInts(rpfCurrent.expr(call.Args[0]))
+					panic(stop{})
+				}
+				return nil, false
+			}
+			var err error
+			func() {
+				defer func() {
+					if x := recover(); x != nil {
+						if _, ok := x.(stop); ok {
+							return
+						}
+						panic(x)
+					}
+				}()
+				_, err = c.rpfCall(fd, p, []*Val{{K: VStruct, Ptr: true, Fields: map[string]*Val{}}, {K: VNil}}, h)
+			}()
+			if err != nil {
+				r.Undecided("S-PIPELINE", key, pos, err.Error())
+				continue
+			}
+			bad := ""
+			if !captured {
+				bad = "the bit-stream parser is never reached"
+			}
+			if bad == "" && len(got) != numData {
+				bad = fmt.Sprintf("the bit-stream parser is handed %d bytes, the symbol has %d data codewords", len(got), numData)
+			}
+			for i := 0; i < len(got) && bad == ""; i++ {
+				if got[i] != int64(i) {
+					bad = fmt.Sprintf("byte %d handed to the bit-stream parser carries tag %d, not data codeword %d of the message", i, got[i], i)
+				}
+			}
+			if bad == "" && len(blocksSeen) != nb {
+				bad = fmt.Sprintf("correctErrors is called for %d blocks, the structure has %d", len(blocksSeen), nb)
+			}
+			for b := 0; b < len(blocksSeen) && bad == ""; b++ {
+				if blocksSeen[b] != int64(dataLen[b]) {
+					bad = fmt.Sprintf("block %d is corrected with %d data codewords, it has %d", b, blocksSeen[b], dataLen[b])
+				}
+			}
+			r.Check(bad == "", "S-PIPELINE", key, pos, bad)
+		}
 	}
 }
